@@ -27,7 +27,7 @@ clone of the anchor, and encode_read / decode_read feed their buffer through the
 
 ASSUMPTIONS = ['C04 (pending placeholders are the only blockers)', 'typestate witnesses W1/W8 (thorough tier)']
 
-FLOORS = {'R9.1': 10, 'R9.2': 6, 'R9.3': 4, 'R9.4': 30, 'R9.5': 21}
+FLOORS = {'R9.1': 10, 'R9.2': 6, 'R9.3': 4, 'R9.4': 30, 'R9.5': 23}
 
 ES = 'hcobs::encoder::EncoderState'
 
